@@ -102,6 +102,95 @@ let cmd_zsd args =
        | _ -> failwith "zsd: bad header")
   | _ -> failwith "zsd: bad args"
 
+
+(* ---- container traces: verified monitor + event semantics ---- *)
+let hex_to_bytes (h : string) =
+  if h = "-" then [] else
+  let n = String.length h / 2 in
+  let rec go i acc = if i < 0 then acc else go (i - 1) (n_of_int (int_of_string ("0x" ^ String.sub h (2 * i) 2)) :: acc) in
+  go (n - 1) []
+let bytes_to_hex (b : n list) =
+  if b = [] then "-" else String.concat "" (List.map (fun x -> Printf.sprintf "%02x" (int_of_n x)) b)
+let hid_of kind id = if kind = "s" then HSand (nat_of_int (int_of_string id)) else HPack (z_of_int (int_of_string id))
+let parse_row s =
+  match String.split_on_char ',' s with
+  | [k; p; o; l; c; sz] -> { rkey = n_of_int (int_of_string k); rpack = z_of_int (int_of_string p); roff = nat_of_int (int_of_string o);
+                            rlen = nat_of_int (int_of_string l); rcomp = (c = "1"); rsize = nat_of_int (int_of_string sz) }
+  | _ -> failwith ("bad row " ^ s)
+let parse_rows s = List.map parse_row (split_on ';' s)
+let parse_event toks =
+  match toks with
+  | ["opensand"; n] -> EOpenSand (nat_of_int (int_of_string n))
+  | ["openpack"; id] -> EOpenPack (z_of_int (int_of_string id))
+  | ["write"; k; id; hx] -> EWrite (hid_of k id, hex_to_bytes hx)
+  | ["flush"; k; id] -> EFlush (hid_of k id)
+  | ["fsync"; k; id] -> EFsync (hid_of k id)
+  | ["close"; k; id] -> EClose (hid_of k id)
+  | ["truncate"; id; pos] -> ETruncate (z_of_int (int_of_string id), nat_of_int (int_of_string pos))
+  | ["publish"; n; k] -> EPublish (nat_of_int (int_of_string n), n_of_int (int_of_string k))
+  | ["unlinksand"; n] -> EUnlinkSand (nat_of_int (int_of_string n))
+  | ["unlinkloose"; k] -> EUnlinkLoose (n_of_int (int_of_string k))
+  | ["unlinkpack"; id] -> EUnlinkPack (z_of_int (int_of_string id))
+  | ["link"; a; b] -> ELinkPack (z_of_int (int_of_string a), z_of_int (int_of_string b))
+  | ["insert"; ig; rows] -> ESql (SInsert (ig = "1", parse_rows rows))
+  | ["insert"; ig] -> ESql (SInsert (ig = "1", []))
+  | ["delete"; ks] -> ESql (SDelete (List.map (fun k -> n_of_int (int_of_string k)) (split_on ',' ks)))
+  | ["delete"] -> ESql (SDelete [])
+  | ["updaterows"; rows] -> ESql (SUpdateRows (parse_rows rows))
+  | ["repoint"; a; b] -> ESql (SRepoint (z_of_int (int_of_string a), z_of_int (int_of_string b)))
+  | ["commit"] -> ECommit
+  | ["rollback"] -> ERollback
+  | _ -> failwith ("bad event " ^ String.concat " " toks)
+
+let rec firstn_l n l = if n <= 0 then [] else match l with [] -> [] | x :: t -> x :: firstn_l (n - 1) t
+
+let dump_world (w : world) =
+  let f (fl : file) = bytes_to_hex fl.fdata ^ "/" ^ bytes_to_hex fl.fsynced in
+  let ls = List.sort compare (List.map (fun (k, fl) -> Printf.sprintf "%d:%s" (int_of_n k) (f fl)) w.loose) in
+  let ps = List.sort compare (List.map (fun (k, fl) -> Printf.sprintf "%d:%s" (int_of_z k) (f fl)) w.packs) in
+  let ss = List.sort compare (List.map (fun (k, fl) -> Printf.sprintf "%d:%s" (int_of_nat k) (f fl)) w.sandbox) in
+  let rs = List.map (fun r -> Printf.sprintf "%d,%d,%d,%d,%d,%d" (int_of_n r.rkey) (int_of_z r.rpack) (int_of_nat r.roff) (int_of_nat r.rlen)
+                       (if r.rcomp then 1 else 0) (int_of_nat r.rsize)) w.db in
+  Printf.sprintf "L %s|P %s|S %s|R %s" (String.concat ";" ls) (String.concat ";" ps) (String.concat ";" ss) (String.concat ";" rs)
+
+let run_trace_block () =
+  let htab : (n list, n) Hashtbl.t = Hashtbl.create 64 in
+  let ztab : (n list, n list) Hashtbl.t = Hashtbl.create 64 in
+  let loose = ref [] and packs = ref [] and rows = ref [] and truth = ref [] and targets = ref [] and evs = ref [] in
+  let fin = ref false in
+  while not !fin do
+    let line = String.trim (input_line stdin) in
+    match split_on ' ' line with
+    | ["trace_end"] -> fin := true
+    | ["H"; k; hx] -> Hashtbl.replace htab (hex_to_bytes hx) (n_of_int (int_of_string k))
+    | ["Z"; blob; c] -> Hashtbl.replace ztab (hex_to_bytes blob) (hex_to_bytes c)
+    | ["L"; k; hx] -> let d = hex_to_bytes hx in loose := (n_of_int (int_of_string k), { fdata = d; fsynced = d }) :: !loose
+    | ["P"; id; hx] -> let d = hex_to_bytes hx in packs := (z_of_int (int_of_string id), { fdata = d; fsynced = d }) :: !packs
+    | ["R"; r] -> rows := parse_row r :: !rows
+    | ["T"; k; hx] -> truth := (n_of_int (int_of_string k), hex_to_bytes hx) :: !truth
+    | ["G"; k] -> targets := n_of_int (int_of_string k) :: !targets
+    | "E" :: toks -> evs := parse_event toks :: !evs
+    | [] -> ()
+    | _ -> failwith ("bad trace line " ^ line)
+  done;
+  let h b = match Hashtbl.find_opt htab b with Some k -> k | None -> N0 in
+  let inflate b = Hashtbl.find_opt ztab b in
+  let w0 = { loose = List.rev !loose; packs = List.rev !packs; sandbox = []; db = List.rev !rows } in
+  let s0 = (w0, local0) in
+  let tr = List.rev !evs in
+  let truth = List.rev !truth and targets = !targets in
+  let verdict pl =
+    if monitor h inflate pl truth targets s0 tr then "ok"
+    else begin
+      (* locate the first failing prefix (the monitor itself is the verified checker; this only names the position) *)
+      let n = List.length tr in
+      let rec find i = if i > n then n else
+        if monitor h inflate pl truth targets s0 (firstn_l i tr) then find (i + 1) else i in
+      Printf.sprintf "fail@%d" (find 0)
+    end in
+  let (wf, _) = run_events s0 tr in
+  Printf.printf "crash=%s pl=%s final=%s\n" (verdict false) (verdict true) (dump_world wf)
+
 let () =
   let extra = ref [("por", cmd_por); ("bio", cmd_bio true); ("fio", cmd_bio false); ("zsd", cmd_zsd)] in
   try
@@ -118,6 +207,7 @@ let () =
           | "merge" -> cmd_merge args
           | "chunks" -> cmd_chunks args
           | "paging" -> cmd_paging args
+          | "trace_begin" -> run_trace_block ()
           | _ -> (match List.assoc_opt cmd !extra with
                   | Some f -> f args
                   | None -> Printf.printf "ERROR unknown command %s\n" cmd)
